@@ -313,6 +313,31 @@ pub fn run(args: &Args) {
                 bases.push(write_pkg(&p));
             }
         }
+        // the alignment padding behind the signature header with another length: more zero bytes, fewer, none
+        for (bi, base) in bases.iter().enumerate() {
+            let Some(lay) = rawhdr::layout(base) else { continue };
+            let sig_end = lay.sig.store_at + lay.sig.dsize as usize;
+            let pad = lay.hdr_at - sig_end;
+            let mut variants: Vec<(String, Vec<u8>)> = vec![];
+            for k in [1usize, 3, 8] {
+                let mut m = base[..lay.hdr_at].to_vec();
+                m.extend(std::iter::repeat(0u8).take(k));
+                m.extend_from_slice(&base[lay.hdr_at..]);
+                variants.push((format!("{k} extra zero bytes behind the signature padding"), m));
+            }
+            for cut in [pad, 1] {
+                if cut > 0 && cut <= pad {
+                    let mut m = base[..lay.hdr_at - cut].to_vec();
+                    m.extend_from_slice(&base[lay.hdr_at..]);
+                    variants.push((format!("{cut} of {pad} padding bytes removed"), m));
+                }
+            }
+            for (desc, m) in variants {
+                let mut o = Opts::new(&format!("mutant:pad{bi}:{desc}"));
+                o.gets = false;
+                for e in pkgobs::observe_all(&m, &o) { t.emit(e); }
+            }
+        }
         for i in 0..n {
             let base = &bases[rng.below(bases.len() as u64) as usize];
             let (mut m, mut desc) = mutate(&mut rng, base);
